@@ -29,6 +29,9 @@ EXCLUDE = {("method", "init")}
 NOT_FRESH = {"int", "float", "str", "bool", "complex", "list", "set", "dict", "range", "print", "self", "True", "False", "None", "Exception",
              "undefined", "CARGO_MANIFEST_DIR", "CARGO_PKG_VERSION"}
 
+LANGUAGE_TYPES = ["Int", "Float", "Str", "Bool", "Enum", "Complex", "Collection", "Range", "Slice", "Set", "List", "Tuple", "Dict", "Callable", "None",
+                  "Exception", "Union", "Any"]
+
 TEMPLATES = [
     # shadowing next to other variables: a name derived from another one (x_1, x1, ...) must stay a different variable
     'def v1 := 3\ndef v5 := True\ndef v6 := 2\nprint(v1 + 1)\ndef v1 := "s"\nprint(v1 + "t")\nprint(v5 and True)\ndef v1 := 2.5\nprint(v1)\nprint(v6 + 1)\nprint(v5 or False)\n',
@@ -158,6 +161,13 @@ def run(chk):
     not_fresh = set(nt.get("type_keys", [])) | NOT_FRESH
     extras = [n for n in nt.get("source_spellings", []) + [a for a, _ in nt.get("fun_arms", [])]
               if n not in not_fresh and not n.startswith("__") and n not in COLL_LOWER + COLL_UPPER + ORD_LOWER + ORD_UPPER]
+    # case variants of the spellings the generator's name tables know (and of what they are mapped to): a table that
+    # starts to match more than its exact keys shows up on these
+    known_spellings = set(nt.get("type_keys", [])) | set(LANGUAGE_TYPES) | {"int", "float", "str", "bool", "enum", "complex", "collection", "range", "slice", "set", "list", "dict", "size", "init"}
+    for k in sorted(known_spellings):
+        for v in (k.upper(), k.capitalize(), k.lower(), k.swapcase(), k + "_", "_" + k, k + "1"):
+            if v not in not_fresh and v not in known_spellings and v not in COLL_LOWER + COLL_UPPER + ORD_LOWER + ORD_UPPER + extras:
+                extras.append(v)
     for n in extras:
         (COLL_UPPER if n[0].isupper() else COLL_LOWER).append(n)
     chk.cov["source_derived_candidates"] = extras
@@ -194,8 +204,11 @@ def run(chk):
     n_sys = 0
     for k, sites in sorted(by_kind.items()):
         for target in pool(k, True):
+            derived = target in extras
+            if derived and not thorough and rng.random() < 0.6:
+                continue          # quick tier: each derived spelling is tried for about 40% of the kinds
             tsites = [s for s in sites if s[0] < len(TEMPLATES)]
-            for (i, n) in ([rng.choice(sites) for _ in range(3 if thorough else 1)] + (tsites if thorough else rng.sample(tsites, min(2, len(tsites))))):
+            for (i, n) in ([rng.choice(sites) for _ in range(3 if thorough else 1)] + (tsites if thorough else rng.sample(tsites, min(1 if derived else 2, len(tsites))))):
                 rho = random_rho(rng, {m: kk for m, kk in kinds[i].items() if m != n}, 0.0)
                 if target in rho.values():
                     continue
